@@ -34,7 +34,7 @@ def wellformed(rs: dict) -> bool:
 def pipeline_all(pool: core.Pool, sets: list[dict], ssbs: bool = False, chunk: int = 8, timeout: float = 60, single_timeout: float = 20) -> list[dict]:
     """real decompiler + recompilation + parse for every routine set; a case that hangs or dies gives
     {"dec": {"error": "NoAnswer", ...}}"""
-    args = [{"rs": s["rs"], "ssbs": ssbs} for s in sets]
+    args = [{"rs": s["rs"], "ssbs": ssbs, "twice": bool(s.get("twice"))} for s in sets]
     chunks = [args[i:i + chunk] for i in range(0, len(args), chunk)]
     outs = pool.map("harness.impl_es:decomp_pipeline_many", chunks, timeout=timeout)
     res: list[dict] = []
